@@ -215,6 +215,7 @@ type Sched struct {
 	order      []*Thread
 	lastX      uint64
 	NoBranch   bool
+	Obs        uint64 // order-sensitive hash of the harness-visible events of this execution
 	advMode    int // 0 undecided, 1 lazy adversaries, 2 eager adversaries
 	timers     []*Timer
 	Diverged   string
@@ -266,6 +267,16 @@ func Outcome(format string, a ...any) {
 		S.OutcomeStr += ";"
 	}
 	S.OutcomeStr += fmt.Sprintf(format, a...)
+}
+
+// Observe folds a harness-visible event (a server event, a call's return) into the execution's history
+// hash, in the order in which the events happen. The explorer counts the distinct histories it has seen:
+// a non-vacuity measure (many executions with one history means nothing interleaved differently).
+func Observe(s string) {
+	if Killing() {
+		return
+	}
+	S.Obs = mix(S.Obs, hashStr(s))
 }
 
 // Note folds a harness observation into the running thread's fingerprint chain.
